@@ -714,6 +714,7 @@ pub fn search_collect(ctx: &Ctx) -> Report {
         let mut srng = rng.fork();
         let spec = gen::gen_search(rng, i);
         let call = Call::Search(spec);
+        let lost = rng.chance(1, 8);
         let rt = runtime(rng.next());
         let call2 = call.clone();
         let (out, plan) = rt.block_on(async move {
@@ -726,11 +727,16 @@ pub fn search_collect(ctx: &Ctx) -> Report {
                     if let Ok(m) = w.msg {
                         if let Req::Search { .. } = m.op {
                             plan = gen_raw(&mut srng, m.id);
+                            // one answer in eight is cut short: the server goes away before the final result
+                            let upto = if lost { plan.len() - 1 - srng.usize(plan.len()) } else { plan.len() };
                             let mut bytes = vec![];
-                            for (r, cs) in &plan {
+                            for (r, cs) in &plan[..upto] {
                                 bytes.extend_from_slice(&ber::encode_min(&resp_node(m.id, r, cs.as_deref())));
                             }
                             server.send_chunked(&bytes, Chunking::Random, &mut srng);
+                            if lost {
+                                server.eof();
+                            }
                         }
                     }
                 }
@@ -743,6 +749,15 @@ pub fn search_collect(ctx: &Ctx) -> Report {
             let _ = c.driver.await;
             (out, plan)
         });
+        if lost {
+            // without the final result there is no result to return: search() fails, it does not make one up
+            match &out {
+                Outcome::Err(..) => rep.count("search()_calls_failed_by_connection_loss", 1),
+                o => rep.violation("C10:search():connection-lost-before-the-final-result-but-a-result-is-returned", format!("{} items planned, connection closed before SearchResultDone: {}", plan.len(), trunc(o)), json!({"lane":"search_collect","case":i})),
+            }
+            rep.case(Some(fnv(format!("lost{:?}", plan).as_bytes())));
+            return;
+        }
         let want = expected_outcome(&plan);
         if want != out {
             let sig = match (&want, &out) {
@@ -977,5 +992,126 @@ pub fn dropped_neighbour(ctx: &Ctx) -> Report {
         }
         rep.count(&format!("neighbour_{}", o.how), 1);
         rep.case(Some(fnv(format!("{}{}{:?}", o.how, o.split, o.b_expected.len()).as_bytes())));
+    })
+}
+
+
+// ---------------- a reader far behind the server ----------------
+
+/// "Exactly the entries the server sent, in order" has no size limit: a result of thousands of items that
+/// arrives in one burst while the reader is busy elsewhere (it comes back after a second) is delivered in
+/// full, through a direct stream, behind EntriesOnly and through search().
+pub fn lagging_reader(ctx: &Ctx) -> Report {
+    let n = ctx.n(24, 2_000);
+    par_cases(ctx, "lagging_reader", n, ctx.secs(20, 200), |i, rng, rep| {
+        let total = *rng.pick(&[1_024usize, 1_025, 1_500, 3_000, 5_000]);
+        let how = rng.below(3);
+        let refs_every = if rng.bool() { 97 } else { 0 };
+        let rt = runtime(rng.next());
+        let (got, refs_got, res) = rt.block_on(async move {
+            let c = connect();
+            let mut ldap = c.ldap;
+            let mut server = c.server;
+            let srv = tokio::spawn(async move {
+                if let Some(w) = server.request().await {
+                    if let Ok(m) = w.msg {
+                        let mut bytes = vec![];
+                        for k in 0..total {
+                            if refs_every > 0 && k % refs_every == 5 {
+                                bytes.extend_from_slice(&ber::encode_min(&resp_node(m.id, &Resp::Reference(vec![format!("ldap://r/{}", k)]), None)));
+                            }
+                            bytes.extend_from_slice(&ber::encode_min(&resp_node(m.id, &Resp::Entry { dn: format!("e={}", k).into_bytes(), attrs: vec![] }, None)));
+                        }
+                        bytes.extend_from_slice(&ber::encode_min(&resp_node(m.id, &Resp::Done(Res::code(4, "t:done")), None)));
+                        server.send(&bytes);
+                    }
+                }
+                server.wait_closed().await;
+            });
+            let dn_of = |e: &ResultEntry| match &item_out(e).node {
+                ber::Node::C { kids, .. } => match kids.first() {
+                    Some(ber::Node::P { data, .. }) => String::from_utf8_lossy(data).into_owned(),
+                    _ => "?".into(),
+                },
+                _ => "?".into(),
+            };
+            let mut got: Vec<String> = vec![];
+            let mut refs_got = 0usize;
+            let res;
+            if how == 2 {
+                // the collecting call has no reader to lag; the driver still gets everything in one go
+                match world::watchdog(ldap.search("op=1", Scope::Subtree, "(a=b)", vec!["*"])).await {
+                    Ok(Ok(r)) => {
+                        got = r.0.iter().map(&dn_of).collect();
+                        refs_got = r.1.refs.len();
+                        res = format!("rc={}:{}", r.1.rc, r.1.text);
+                    }
+                    Ok(Err(e)) => res = format!("Err({})", world::err_class(&e)),
+                    Err(()) => res = "Hung".into(),
+                }
+            } else {
+                let st = if how == 1 {
+                    let ad: Vec<Box<dyn Adapter<'static, &str, Vec<&str>>>> = vec![Box::new(EntriesOnly::new())];
+                    ldap.streaming_search_with(ad, "op=1", Scope::Subtree, "(a=b)", vec!["*"]).await
+                } else {
+                    ldap.streaming_search("op=1", Scope::Subtree, "(a=b)", vec!["*"]).await
+                };
+                match st {
+                    Err(e) => res = format!("START:Err({})", world::err_class(&e)),
+                    Ok(mut st) => {
+                        let mut first = true;
+                        let mut end = String::new();
+                        loop {
+                            match world::watchdog(st.next()).await {
+                                Ok(Ok(Some(e))) => {
+                                    if item_out(&e).is_ref {
+                                        refs_got += 1;
+                                    } else {
+                                        got.push(dn_of(&e));
+                                    }
+                                    if first {
+                                        first = false;
+                                        // the reader is busy elsewhere while the rest of the burst piles up
+                                        tokio::time::sleep(std::time::Duration::from_secs(1)).await;
+                                    }
+                                }
+                                Ok(Ok(None)) => break,
+                                Ok(Err(e)) => {
+                                    end = format!("Err({}) after {} items; ", world::err_class(&e), got.len());
+                                    break;
+                                }
+                                Err(()) => {
+                                    end = "Hung; ".into();
+                                    break;
+                                }
+                            }
+                        }
+                        let r = st.finish().await;
+                        if how == 1 {
+                            refs_got = r.refs.len();
+                        }
+                        res = format!("{}rc={}:{}", end, r.rc, r.text);
+                    }
+                }
+            }
+            drop(ldap);
+            let _ = srv.await;
+            let _ = c.driver.await;
+            (got, refs_got, res)
+        });
+        let kind = ["direct", "behind-entries-only", "search()"][how as usize];
+        let replay = json!({"lane":"lagging_reader","case":i});
+        let want_refs = if refs_every > 0 { (0..total).filter(|k| k % refs_every == 5).count() } else { 0 };
+        let in_order = got.iter().enumerate().all(|(k, d)| *d == format!("e={}", k));
+        if got.len() != total || !in_order || res != "rc=4:t:done" || refs_got != want_refs {
+            rep.violation(
+                format!("C10:{}:large-result-not-delivered-in-full-to-a-lagging-reader", kind),
+                format!("{} entries and {} references sent in one burst, then rc 4: the caller got {} entries ({}), {} references, end {}", total, want_refs, got.len(), if in_order { "in order" } else { "OUT OF ORDER" }, refs_got, res),
+                replay,
+            );
+        }
+        rep.max("max_items_in_one_result", (total + want_refs) as u64);
+        rep.count(&format!("lagging_{}", kind), 1);
+        rep.case(Some(fnv(format!("{}{}{}", total, how, refs_every).as_bytes())));
     })
 }
